@@ -38,7 +38,7 @@ def rule_R04_1(ctx):
             prod.add(x[0])
         # local view: walk constructor wrappers to the creating call sites
         creators = []
-        if f.module == "eval::value":
+        if f.module.startswith("eval::value"):
             for c in prog.callers_of(f.path):
                 creators.append(c)
         r.inst("%s builds Func; creators: %s" % (f.path, [c.fn.path for c in creators]))
